@@ -28,7 +28,9 @@ for p in props:
         'replay_cmd_template': './check %s --replay {path}' % pid,
         'engine': 'sa',
         'level_claimed': {'category': 'other', 'text': meta['level'], 'design_ref': meta.get('design_ref', 'DESIGN.md section 3 ' + pid)},
-        'level_note': meta['note'],
+        'level_note': meta['note'] + ' Every check also carries rule SS (run by the driver): the state the analysed functions keep per object '
+                      '(IKE_SA, message, cipher context, configuration record) is not shared between objects - no class-/module-level '
+                      'container, class attribute, mutable default or memoised mutable result is written at run time (DESIGN.md 8.7, round 6).',
         'technique': meta['technique'],
     })
 m = {
